@@ -257,6 +257,8 @@ def run(prog, rep):
     import_verdicts(prog, rep, "C17", ("SINK-1",), "SINK-1",
                     "a failed save leaves a file that was already there as it was: nothing in the package removes, renames or truncates a file "
                     "outside the reviewed write sites - a clean-up that deletes the target after a failure deletes the earlier content too")
+    from .rules_lints import no_global_warning_filters
+    no_global_warning_filters(prog, rep, "WARN-1")
     rep.assume("warnings.warn does not raise under the default warning filters; it precedes every write anyway (ORDER-6)")
     rep.assume("file.write of an already rendered text only fails for I/O reasons")
 
